@@ -6,6 +6,9 @@
 // the write stops at byte fsize and returns EFBIG to the library.
 // mode "crash": additionally SIGXFSZ is reset to SIG_DFL, so the kernel kills
 // the process at exactly that byte. mode "plain": no limit (used under strace).
+// mode "error_retry": the write is refused at byte fsize, the limit is lifted and
+// the same Persist value stores the node again (exit 0 = retry succeeded, 4 = retry
+// failed, 5 = the first Store claimed success).
 // Exit status: 0 Store returned nil, 3 Store returned an error. The Store call
 // is bracketed by two getppid() syscalls so a tracer can find it.
 package main
@@ -55,6 +58,29 @@ func main() {
 	mode := os.Args[5]
 	b := Payload(n, seed)
 	name := ref.Name(b)
+	if mode == "error_retry" {
+		// soft limit only: the first Store hits it, then it is lifted and the SAME Persist stores again
+		var cur syscall.Rlimit
+		syscall.Getrlimit(syscall.RLIMIT_FSIZE, &cur)
+		lim := syscall.Rlimit{Cur: uint64(fsize), Max: cur.Max}
+		if err := syscall.Setrlimit(syscall.RLIMIT_FSIZE, &lim); err != nil {
+			os.Exit(2)
+		}
+		p := file.NewPersistForPath(dir)
+		err1 := p.Store(context.Background(), name, b)
+		lim.Cur = cur.Max
+		if err := syscall.Setrlimit(syscall.RLIMIT_FSIZE, &lim); err != nil {
+			os.Exit(2)
+		}
+		err2 := p.Store(context.Background(), name, b)
+		switch {
+		case err2 != nil:
+			os.Exit(4) // the retry with the fault gone failed
+		case err1 == nil:
+			os.Exit(5) // the first Store reported success although its write was refused
+		}
+		os.Exit(0)
+	}
 	if fsize >= 0 {
 		lim := syscall.Rlimit{Cur: uint64(fsize), Max: uint64(fsize)}
 		if err := syscall.Setrlimit(syscall.RLIMIT_FSIZE, &lim); err != nil {
